@@ -1,0 +1,55 @@
+//go:build verif
+
+// Contracts checked by /verif/gvc (contract-based deductive verification).
+// This file contains comments only; it is compiled only under the "verif" build tag.
+
+package server
+
+// C14 — unsubscribeHandler: the OnUnsubscribe verdict is enforced. A request refused by the hook removes nothing;
+// a topic entry with an error verdict gets a failure code and is not removed; every other entry is removed exactly
+// once, under the client's id, with the topic name as the hook left it.
+
+// OnUnsubscribe: plugin code. It may edit the entries of the request (TopicName / Error, through Reject or
+// directly) but not the shape of the map (hook.go: "you cannot change the length of the map").
+// $onUnsub counts the calls, $onUnsubErr is the verdict of the last one.
+//@ ghost field (Hooks).onUnsub int
+//@ ghost field (Hooks).onUnsubErr error
+//@ func field (Hooks).OnUnsubscribe
+//@ params self, ctx, c, req
+//@ requires req != nil
+//@ modifies heap, ghost(self.$onUnsub), ghost(self.$onUnsubErr)
+//@ preserves all(client.*), all(ClientOptions.*), all(server.*), all(Hooks.*), all(config.MQTT.*), all(packets.Unsubscribe.*), all(packets.Unsuback.*), all(packets.Properties.*), all(UnsubscribeRequest.*), allelems(string), allelems(codes.Code), allcells(*client), allcells(*packets.Unsuback), allcells([]codes.Code)
+//@ ensures self.$onUnsub == old(self.$onUnsub) + 1 && self.$onUnsubErr == result
+//@ ensures forall k string :: has(req.Unsubs, k) == old(has(req.Unsubs, k)) && req.Unsubs[k] == old(req.Unsubs[k])
+// a per-topic Error set by a plugin is a refusal: its reason code, if it is a *codes.Error, is a failure code (>= 0x80)
+//@ ensures forall k string :: has(req.Unsubs, k) ==> failing(req.Unsubs[k].Error)
+
+//@ func field (Hooks).OnUnsubscribed
+//@ params self, ctx, c, topicName
+
+//@ func (*client).unsubscribeHandler
+//@ props C14
+//@ let H = client.server.hooks
+//@ let D = client.server.subscriptionsDB
+//@ requires [C14] client != nil && unSub != nil && client.server != nil && client.opts != nil && client.rwc != nil && D != nil
+//@ modifies heap, ghost(H.$onUnsub), ghost(H.$onUnsubErr), ghost(D.$unsubs), ghost(D.$lastUnsubClient), ghost(D.$lastUnsubTopic), ghost(client.$nout), ghost(client.$lastOut)
+// the hook is asked once per UNSUBSCRIBE; a refusal removes nothing
+//@ ensures [C14] old(H.OnUnsubscribe) != nil ==> H.$onUnsub == old(H.$onUnsub) + 1
+//@ ensures [C14] old(H.OnUnsubscribe) == nil ==> H.$onUnsub == old(H.$onUnsub)
+//@ ensures [C14] old(H.OnUnsubscribe) != nil && !noErr(H.$onUnsubErr) ==> D.$unsubs == old(D.$unsubs)
+//@ spec func unsubOK(client *client, unSub *packets.Unsubscribe, req *UnsubscribeRequest) bool = client.server != nil && client.opts != nil && client.rwc != nil && client.server.subscriptionsDB != nil && req != nil && req.Unsubs != nil && req.Unsubscribe == unSub && unSub.Topics == old(unSub.Topics) && client.server == old(client.server) && client.server.subscriptionsDB == old(client.server.subscriptionsDB) && client.opts == old(client.opts)
+//@ spec func unreqOK(unSub *packets.Unsubscribe, req *UnsubscribeRequest, n int) bool = forall j int :: 0 <= j && j < n ==> has(req.Unsubs, unSub.Topics[j]) && req.Unsubs[unSub.Topics[j]] != nil && failing(req.Unsubs[unSub.Topics[j]].Error)
+//@ loop 1 invariant unsubOK(client, unSub, req) && isfresh(req) && isfresh(req.Unsubs) && len(cs) == len(unSub.Topics) && H.$onUnsub == old(H.$onUnsub) && D.$unsubs == old(D.$unsubs)
+//@ loop 1 invariant unreqOK(unSub, req, $k + 1)
+//@ loop 2 invariant unsubOK(client, unSub, req) && ce != nil && old(H.OnUnsubscribe) != nil && H.$onUnsub == old(H.$onUnsub) + 1 && H.$onUnsubErr == err && D.$unsubs == old(D.$unsubs)
+//@ loop 3 invariant unsubOK(client, unSub, req) && srv == client.server && len(cs) == len(unSub.Topics)
+//@ loop 3 invariant unreqOK(unSub, req, len(unSub.Topics))
+//@ loop 3 invariant old(H.OnUnsubscribe) != nil ==> H.$onUnsub == old(H.$onUnsub) + 1 && noErr(H.$onUnsubErr)
+//@ loop 3 invariant old(H.OnUnsubscribe) == nil ==> H.$onUnsub == old(H.$onUnsub)
+// what is removed: exactly the entries without an error verdict, under the client's id, with the (possibly edited) name
+//@ call Store.Unsubscribe#1 assert [C14] clientID == client.opts.ClientID && len(topics) == 1 && topics[0] == req.Unsubs[unSub.Topics[k#2]].TopicName && noErr(req.Unsubs[unSub.Topics[k#2]].Error)
+//@ loop 3 step [C14] !noErr(at(iter3, req.Unsubs[unSub.Topics[k#2]].Error)) ==> cs[k#2] >= 128 && D.$unsubs == at(iter3, D.$unsubs)
+//@ loop 3 step [C14] cs[k#2] < 128 ==> D.$unsubs == at(iter3, D.$unsubs) + 1 && D.$lastUnsubClient == client.opts.ClientID && D.$lastUnsubTopic == topicName
+//@ loop 3 step [C14] D.$unsubs == at(iter3, D.$unsubs) || D.$unsubs == at(iter3, D.$unsubs) + 1
+// the peers / plugins are told about a removal only when it happened
+//@ call Hooks.OnUnsubscribed#1 assert [C14] D.$unsubs == at(iter3, D.$unsubs) + 1 && topicName == D.$lastUnsubTopic
